@@ -37,6 +37,9 @@ structure OState where
 def bookClose (b : Spec.Book) (sh : Rat) (acb : Option Rat) : Bool :=
   close b.shares sh && closeOpt b.acb acb
 
+/-- a decimal with at most 12 decimal places and magnitude below 10^12 -/
+def shortDecimal (q : Rat) : Bool := isInteger (pow10 12 * q) && decide (rabs q < pow10 12)
+
 def sumShares (st : OState) : Rat := sumOver st.affs (fun a => (st.books a).shares)
 def sumAcb (st : OState) : Rat := sumOver st.affs (fun a => ((st.books a).acb).getD 0)
 
@@ -69,6 +72,15 @@ partial def oracleRows (initAcb : Rat) (c3 : Bool) (complete : Bool) (i : Nat) (
         [("C04", s!"row {i}: all-affiliate balance {ratToString x.post.all} is not the sum of balances {ratToString (sumShares st')}")] else []) ++
       (if x.aff.registered && (x.post.acb.isSome || x.gain.isSome) then
         [("C04", s!"row {i}: registered affiliate shows a cost base or gain")] else [])
+    -- a split whose exact result is a short decimal must be computed exactly (C15: only the
+    -- share counts scale; 99 shares 1-for-3 are 33 shares, not 32.99…97)
+    let e15 : List (String × String) := match t.act with
+      | .split post pre _ =>
+        let exact := x.pre.shares * post / pre
+        if pre ≠ 0 && shortDecimal x.pre.shares && shortDecimal exact && x.post.shares ≠ exact then
+          [("C15", s!"row {i}: split {ratToString post}-for-{ratToString pre} of {ratToString x.pre.shares} shares gives {ratToString x.post.shares}, not exactly {ratToString exact}")]
+        else []
+      | _ => []
     -- cash flows
     let st' := match t.act with
       | .buy sh px comm rate crate => { st' with costs := st'.costs + (px * sh * rate + comm * commRate rate crate) }
@@ -88,7 +100,7 @@ partial def oracleRows (initAcb : Rat) (c3 : Bool) (complete : Bool) (i : Nat) (
         if rabs (st'.gains - rhs) ≤ ((i + 1 : Nat) : Rat) / pow10 9 then []
         else [("C03", s!"after row {i}: gains so far {ratToString st'.gains} ≠ proceeds−costs+roc+held cost base {ratToString rhs}")]
       else []
-    let errs := e1 ++ e4 ++ e3
+    let errs := e1 ++ e4 ++ e3 ++ e15
     if errs.isEmpty then oracleRows initAcb c3 complete (i + 1) st' rest else errs
 
 def ledgerOracles (dflt : Aff) (init : Option Status) (txs : List Tx) (impls : List ImplDelta)
